@@ -101,7 +101,62 @@ def classify_apply_exception(case, exc):
                 if ln.get("k") in ("jmp", "jne", "call") and \
                         follows_code.get(ln.get("t")) is False:
                     return "refused", "refused:branch-target-not-code"
+    if name == "AssertionError" and \
+            where == "edit.py:_cleanup_modified_blocks":
+        return "raised", f"apply-raises:{name}@{where}" + cleanup_context(
+            case)
     return "raised", f"apply-raises:{name}@{where}"
+
+
+def cleanup_context(case):
+    """Is there a patch placed at the very end of a code block that had no
+    code behind it in the input, and which needs a continuation block: its
+    last instruction is a call / conditional jump (falls through AND has
+    other edges), or it ends in a label that the patch itself branches to?
+    That is the one situation in which the library is known to trip over its
+    own empty continuation block."""
+    from .listing import Listing
+    try:
+        l0 = Listing(case)
+        l0.layout()
+    except Exception:  # noqa
+        return ":context-unknown"
+    follows = {}
+    for si, sec in enumerate(case["secs"]):
+        flat = []
+        for ii, iv in enumerate(sec["ivs"]):
+            brk = ii > 0 and (iv.get("gap", 0) or iv.get("lead"))
+            for blk in iv["blocks"]:
+                flat.append((blk, brk))
+                brk = False
+        for k, (blk, _) in enumerate(flat):
+            nxt = flat[k + 1] if k + 1 < len(flat) else None
+            follows[blk["id"]] = bool(
+                nxt and not nxt[1] and nxt[0]["code"] and nxt[0]["items"])
+    isa = case["isa"]
+    for e in case["edits"]:
+        if e["op"] not in ("ins", "rep") or "lines" not in e.get("p", {}):
+            continue
+        blk = l0.block_info[e["b"]]["blk"]
+        if not blk["code"] or follows.get(e["b"]):
+            continue
+        if e["i"] + e.get("n", 0) != len(blk["items"]):
+            continue
+        lines = e["p"]["lines"]
+        instrs = [ln for ln in lines if "k" in ln and ln["k"] != "bytes"]
+        if not instrs:
+            continue
+        last = vocab.VOCAB[isa][instrs[-1]["k"]]["kind"]
+        trailing = []
+        for ln in reversed(lines):
+            if "l" in ln:
+                trailing.append(ln["l"])
+            elif "k" in ln:
+                break
+        targeted = any(ln.get("t") in trailing for ln in lines if "k" in ln)
+        if last in ("call", "jcc", "icall") or targeted:
+            return ":patch-needing-continuation-at-code-end"
+    return ""
 
 
 # ------------------------------------------------------------------ C01
@@ -575,6 +630,9 @@ def check_cfg(run, lst, ob):
             ctxs.append(boundary_class(tok, nxt))
             if what == "missing":
                 ctxs.append(missing_ft_context(lst, case, tok, nxt))
+        if e[2] == "return" and tok.kind != "ret":
+            # observed edges are those of a block's last instruction
+            return f"cfg:{what}:return:from-non-return-instruction:{tok.kind}"
         if e[2] == "return":
             return "cfg:%s:return:%s" % (what, return_context(
                 e, what, tok, origin))
